@@ -358,7 +358,20 @@ Definition res_unavailable_with (w : list ru_atom) (g : graph) (s : step) : bool
 Definition eligible_cached_with (w : list ru_atom) (g : graph) (s : step) : bool :=
   sholds (senv s) gen_dispatch_where && (g_threshold g <? s_ineed s) && negb (s_detached s)
   && (s_has_hash s || negb (res_unavailable_with w g s)).
-Definition eligible_cached : graph -> step -> bool := eligible_cached_with ru_where.
+(* SELECT_NEXT_STEP as the repository has it: every generated conjunct of its WHERE clause (GenSched.sn_where) *)
+Definition sn_atom_holds (w : list ru_atom) (g : graph) (s : step) (a : sn_atom) : bool :=
+  match a with
+  | SnDispatchWhere => sholds (senv s) gen_dispatch_where
+  | SnAboveThreshold => g_threshold g <? s_ineed s
+  | SnAttached => negb (s_detached s)
+  | SnHashOrResources => s_has_hash s || negb (res_unavailable_with w g s)
+  end.
+Definition eligible_cached_q (q : list sn_atom) (w : list ru_atom) (g : graph) (s : step) : bool :=
+  forallb (sn_atom_holds w g s) q.
+Definition sn_full : list sn_atom := [SnDispatchWhere; SnAboveThreshold; SnAttached; SnHashOrResources].
+Definition eligible_cached : graph -> step -> bool := eligible_cached_q sn_where ru_where.
+Definition dispatch_set_q (q : list sn_atom) (w : list ru_atom) (g : graph) : list step :=
+  filter (eligible_cached_q q w g) (g_steps g).
 Definition dispatch_set_with (w : list ru_atom) (g : graph) : list step := filter (eligible_cached_with w g) (g_steps g).
 Definition dispatch_set (g : graph) : list step := filter (eligible_cached g) (g_steps g).
 
@@ -442,6 +455,17 @@ Definition consumers_of_node (g : graph) (k : N) : list N :=
 Definition producers_of_node (g : graph) (k : N) : list N :=
   map d_src (filter (fun d => d_snk d =? k) (g_deps g)).
 
+Definition node_detached (g : graph) (k : N) : bool :=
+  match find_step g k with
+  | Some s => s_detached s
+  | None => match find_file g k with
+            | Some f => f_detached f
+            | None => match find (fun o => o_key o =? k) (g_others g) with
+                      | Some o => o_detached o
+                      | None => false
+                      end
+            end
+  end.
 (* interpretation of one trigger statement; `self` is the row's own node, `d` the dependency row *)
 Definition target_keys (g : graph) (self : N) (d : option dep) (t : ttarget) : list N :=
   match t with
@@ -450,6 +474,13 @@ Definition target_keys (g : graph) (self : N) (d : option dep) (t : ttarget) : l
   | TSink | TSinkOfDep => match d with Some e => [d_snk e] | None => [] end
   | TConsumersOfSelf => consumers_of_node g self
   | TProducersOfSource => match d with Some e => producers_of_node g (d_src e) | None => [] end
+  (* "... AND NOT EXISTS (another edge from OLD.source to a node that is not detached)": the narrowed statement *)
+  | TProducersOfSourceUnlessShared =>
+      match d with
+      | Some e => if existsb (fun d' => (d_src d' =? d_src e) && negb (node_detached g (d_snk d'))) (g_deps g)
+                  then [] else producers_of_node g (d_src e)
+      | None => []
+      end
   end.
 Definition run_trigger (body : list (flagcol * ttarget)) (self : N) (d : option dep) (g : graph) : graph :=
   fold_left (fun acc ct => flag_keys (fst ct) (target_keys acc self d (snd ct)) acc) body g.
@@ -479,6 +510,9 @@ Definition del_dep := del_dep_with trg_dep_del.
 (* the trigger body without the statement that flags the producers of the source file *)
 Definition trg_dep_del_sink_only : list (flagcol * ttarget) :=
   [(FAfter, TSource); (FAfter, TSink); (FReady, TSink)].
+(* the narrowed body: the producers are flagged only when no other attached node still consumes the file *)
+Definition trg_dep_del_unless_shared : list (flagcol * ttarget) :=
+  [(FAfter, TSource); (FAfter, TSink); (FReady, TSink); (FAfter, TProducersOfSourceUnlessShared)].
 Definition flags_producers (trg : list (flagcol * ttarget)) : bool :=
   existsb (fun ct => match ct with (FAfter, TProducersOfSource) => true | _ => false end) trg.
 
@@ -569,17 +603,6 @@ Definition flag_with_products (g : graph) (k : N) : graph :=
 (* RECURSIVE_CHECK_AFTER_SOURCES: the steps two dependency hops upstream of the step subtree of k
    (subtree step x <- file f <- source p) that satisfy every conjunct of the query's WHERE clause; the
    conjuncts are generated (GenSched.cas_where), `w` is any such list.  The UPDATE touches step rows only. *)
-Definition node_detached (g : graph) (k : N) : bool :=
-  match find_step g k with
-  | Some s => s_detached s
-  | None => match find_file g k with
-            | Some f => f_detached f
-            | None => match find (fun o => o_key o =? k) (g_others g) with
-                      | Some o => o_detached o
-                      | None => false
-                      end
-            end
-  end.
 Definition cas_atom_holds (g : graph) (x f p : N) (a : cas_atom) : bool :=
   match a with
   | CasSrcIsStep => match find_step g p with Some _ => true | None => false end
